@@ -77,6 +77,8 @@ type Summary struct {
 	HarnessErrs  []string         `json:"harness_errors"`
 	WallS        float64          `json:"wall_s"`
 	DetHash      uint64           `json:"det_hash"`
+	Next         int              `json:"next"`
+	Complete     bool             `json:"complete"`
 }
 
 type Violation struct {
@@ -329,6 +331,13 @@ func runWorker(bin string, spec *PropSpec, part Part, tier string, t Tier, seed 
 	res.out = out
 	if err != nil {
 		res.err = fmt.Sprintf("worker %d exited: %v", idx, err)
+		// a checkpointed summary may exist
+		if b, rerr := os.ReadFile(outPath); rerr == nil {
+			var s Summary
+			if json.Unmarshal(b, &s) == nil {
+				res.sum = &s
+			}
+		}
 		return res
 	}
 	b, rerr := os.ReadFile(outPath)
@@ -343,6 +352,116 @@ func runWorker(bin string, spec *PropSpec, part Part, tier string, t Tier, seed 
 	}
 	res.sum = &s
 	return res
+}
+
+// crashSignature extracts a stable description of a process death from the worker's output.
+func crashSignature(out string) string {
+	lines := strings.Split(out, "\n")
+	kind := ""
+	for _, l := range lines {
+		l = strings.TrimSpace(l)
+		if strings.HasPrefix(l, "fatal error: ") || strings.HasPrefix(l, "runtime: out of memory") {
+			kind = l
+			break
+		}
+		if strings.HasPrefix(l, "panic: ") && kind == "" {
+			kind = l
+			if len(kind) > 80 {
+				kind = kind[:80]
+			}
+		}
+		if strings.HasPrefix(l, "WATCHDOG ") {
+			return "no termination within the wall-clock watchdog"
+		}
+	}
+	if kind == "" {
+		return ""
+	}
+	if strings.Contains(kind, "stack overflow") || strings.Contains(kind, "stack exceeds") {
+		kind = "fatal error: stack overflow"
+	}
+	top := ""
+	for i, l := range lines {
+		if strings.Contains(l, "/repo/") && !strings.Contains(l, "zz_verif") && i > 0 {
+			fn := strings.TrimSpace(lines[i-1])
+			if j := strings.LastIndex(fn, "("); j > 0 {
+				fn = fn[:j]
+			}
+			if !strings.HasPrefix(fn, "dsim") && fn != "" {
+				top = fn
+				break
+			}
+		}
+	}
+	return "process crash: " + kind + " in " + top
+}
+
+// runWorkerResilient runs a range of runs; when the worker process dies the death is attributed to
+// the run it was executing, that run is re-executed alone in a fresh process, and the rest of the
+// range continues in a new process. A death that reproduces is a violation (replayed from its seed).
+func runWorkerResilient(bin string, spec *PropSpec, part Part, tier string, t Tier, seed uint64, from, to int, dir string, idx int, knownPath string, crashes *[]ViolationEntry, problems *[]string, mu *sync.Mutex) []workerResult {
+	var out []workerResult
+	for attempt := 0; from < to && attempt < 8; attempt++ {
+		r := runWorker(bin, spec, part, tier, t, seed, from, to, dir, idx*100+attempt, knownPath)
+		if r.err == "" {
+			out = append(out, r)
+			return out
+		}
+		k := r.lastRun
+		if k < from {
+			mu.Lock()
+			*problems = append(*problems, fmt.Sprintf("%s before any run started\n%s", r.err, tail(r.out, 40)))
+			mu.Unlock()
+			return out
+		}
+		if r.sum != nil {
+			r.sum.Violations = nil // violations of a dead worker are rediscovered by the re-run below if they matter
+			out = append(out, workerResult{sum: r.sum})
+		}
+		sig := crashSignature(r.out)
+		// re-execute run k alone
+		r2 := runWorker(bin, spec, part, tier, t, seed, k, k+1, dir, idx*100+50+attempt, knownPath)
+		sig2 := crashSignature(r2.out)
+		switch {
+		case r2.err != "" && sig != "" && sig == sig2:
+			rs := mixSeed(seed, uint64(k))
+			os.MkdirAll(filepath.Join(verifDir, "replays"), 0o755)
+			path := filepath.Join(verifDir, "replays", fmt.Sprintf("%s-crash-seed%d.json", spec.ID, rs))
+			rf := map[string]any{"property": spec.ID, "scenario": part.Scenario, "tier": tier, "seed": rs, "from_seed": true, "tape": []int{},
+				"expect": map[string]any{"class": "crash", "signature": sig, "detail": tail(r2.out, 60)}}
+			b, _ := json.MarshalIndent(rf, "", " ")
+			os.WriteFile(path, b, 0o644)
+			mu.Lock()
+			*crashes = append(*crashes, ViolationEntry{Run: k, Seed: rs, Violation: Violation{Class: "crash", Signature: sig, Detail: tail(r2.out, 60)}, Replay: path})
+			mu.Unlock()
+		case r2.err == "":
+			mu.Lock()
+			*problems = append(*problems, fmt.Sprintf("%s (run %d) but the run passes alone: not reproducible\n%s", r.err, k, tail(r.out, 30)))
+			mu.Unlock()
+			out = append(out, r2)
+		default:
+			mu.Lock()
+			*problems = append(*problems, fmt.Sprintf("%s (run %d); alone it dies differently (%q vs %q)\n%s", r.err, k, sig, sig2, tail(r2.out, 30)))
+			mu.Unlock()
+		}
+		from = k + 1
+	}
+	return out
+}
+
+// mixSeed mirrors dsim.Mix (run seed from base seed and run index).
+func mixSeed(a, b uint64) uint64 {
+	s := (a ^ (b+1)*0xD6E8FEB86659FD93) * 0x9E3779B97F4A7C15
+	s += 0x632BE59BD9B4E019
+	next := func() uint64 {
+		s += 0x9E3779B97F4A7C15
+		z := s
+		z = (z ^ (z >> 30)) * 0xBF58476D1CE4E5B9
+		z = (z ^ (z >> 27)) * 0x94D049BB133111EB
+		return z ^ (z >> 31)
+	}
+	next()
+	return next()
 }
 
 func replayOnce(bin string, spec *PropSpec, part Part, file string, dir string) (int, string) {
@@ -471,7 +590,10 @@ func runCheck(spec *PropSpec, tier string) int {
 		}
 		start += n
 	}
-	results := make([]workerResult, len(jobs))
+	var results []workerResult
+	var crashes []ViolationEntry
+	var crashProblems []string
+	var rmu sync.Mutex
 	sem := make(chan struct{}, nw)
 	var wg sync.WaitGroup
 	for w, j := range jobs {
@@ -480,7 +602,10 @@ func runCheck(spec *PropSpec, tier string) int {
 			defer wg.Done()
 			sem <- struct{}{}
 			defer func() { <-sem }()
-			results[w] = runWorker(bins[j.part], spec, parts[j.part], tier, t, seed, j.from, j.to, dir, w, knownPath)
+			rs := runWorkerResilient(bins[j.part], spec, parts[j.part], tier, t, seed, j.from, j.to, dir, w, knownPath, &crashes, &crashProblems, &rmu)
+			rmu.Lock()
+			results = append(results, rs...)
+			rmu.Unlock()
 		}(w, j)
 	}
 	wg.Wait()
@@ -497,6 +622,8 @@ func runCheck(spec *PropSpec, tier string) int {
 	distinct := map[uint64]bool{}
 	sigs := map[uint64]bool{}
 	var harnessProblems []string
+	harnessProblems = append(harnessProblems, crashProblems...)
+	agg.Violations = append(agg.Violations, crashes...)
 	for w, r := range results {
 		if r.sum == nil && r.err == "" {
 			continue
@@ -559,6 +686,9 @@ func runCheck(spec *PropSpec, tier string) int {
 		seenSig[key] = true
 		pi := partOf(replayScenario(v.Replay))
 		code, out := replayOnce(bins[pi], spec, parts[pi], v.Replay, dir)
+		if v.Violation.Class == "crash" && code != 0 && code != 1 && crashSignature(out) == v.Violation.Signature {
+			code = 1 // the fresh process died the same way
+		}
 		switch code {
 		case 1:
 			confirmed++
@@ -692,6 +822,14 @@ func replayCmd(file string) int {
 	bin, _ := buildPkg(spec, part.Pkg, pdir)
 	code, out := replayOnce(bin, spec, part, abs, dir)
 	fmt.Print(out)
+	var exp struct {
+		Expect Violation `json:"expect"`
+	}
+	json.Unmarshal(b, &exp)
+	if exp.Expect.Class == "crash" && code != 0 && code != 1 && crashSignature(out) == exp.Expect.Signature {
+		fmt.Printf("REPRODUCED class=crash signature=%q\n", exp.Expect.Signature)
+		code = 1
+	}
 	if code == 1 {
 		fmt.Printf("VIOLATION property=%s replay=%s\n", spec.ID, abs)
 		return 1
